@@ -146,7 +146,7 @@ func (C02) Run(tp *tape.Tape) core.Result {
 				depth := c03Depths[tp.Draw(len(c03Depths))]
 				w := 0
 				if tp.Bool() {
-					w = widths[tp.Draw(len(widths))]
+					w = drawWidth(tp)
 				}
 				inner := d.Name + "(" + args + ")"
 				var defs []string
